@@ -57,6 +57,7 @@ def _build(N, pts, g, D, dem, cap, dur, choice, slack):
 
 
 class CVRPTW(Adapter):
+    reward_from_actions = True
     name = "cvrptw"
     module = "CVRPTW"
     properties = ("C01", "C02", "C03", "C04", "C05", "C06")
